@@ -45,6 +45,11 @@ def corpus_live(tier):
                 out.append(live_plan(direction, crash_at=k, write='explicit', write_at=k - 1))   # image one state older
         out.append(live_plan(direction, crash_at=2, write='none'))
         out.append(live_plan(direction, crash_at=99, write='explicit'))
+    # the peer is unreachable until the process ends (failed remote-queue attempts are part of the image); the new process
+    # runs with the same clock / after a reboot
+    for reboot in (False, True):
+        for write in ('explicit', 'stop'):
+            out.append(live_plan('down', crash_at=5 if write == 'explicit' else 0, write=write, unreachable=True, reboot=reboot))
     # an interrupted first attempt so that INCOMPLETE is reachable, then the crash
     for k in range(3, 8):
         out.append(live_plan('down', crash_at=k, write='explicit', cut=9000))
@@ -62,6 +67,10 @@ def generate_live(rng, index, tier):
                      chunk_delay=rng.choice([0.0, 0.002, 0.02]))
     plan['net'] = common.draw_net(rng)
     plan['exec'] = {'delay_ms': [0, rng.choice([1, 5, 30])]}
+    if direction == 'down' and rng.random() < 0.15:
+        plan['unreachable'] = True
+    if rng.random() < 0.2:
+        plan['reboot'] = True
     return plan
 
 
@@ -135,6 +144,10 @@ def _run_live(plan):
         plan2 = dict(plan, seed=plan['seed'] + 1)
         w2 = World(plan2, 'C17')
         w2._sandbox = sandbox
+        if plan.get('reboot'):
+            # the machine was rebooted: the monotonic clock of the new process starts far below the old one's readings
+            t_resume = 50.0
+            w2.net.fired['clock_restarted_below_old_readings'] += 1
         w2.loop._now = t_resume
         w2.loop.max_time = t_resume + 20000.0
         try:
@@ -183,6 +196,14 @@ def _world_setup(world, plan, epoch):
     }, transfer_cache=TransferShelveCache(cache_dir))
     bob = XferPeer(world, 'bob')
     bob.attach(alice)
+    if epoch == 1 and plan.get('unreachable'):
+        # the peer cannot be reached during the whole first epoch: every remote-queue attempt fails
+        def connect_hook(attempt):
+            if attempt['src'] == 'alice' and attempt['dst'] == 'bob':
+                world.net.fired['peer_unreachable_before_the_crash'] += 1
+                return ('refuse', 0.02)
+            return None
+        world.net.connect_hook = connect_hook
     return server, alice, bob, source
 
 
